@@ -121,7 +121,7 @@ func ruleCustomMessage(r *Run) {
 		return
 	}
 	fn := hi.Fn
-	req := "var:" + hi.ReqVar.Name()
+	req := "var:req"
 	body := "len(" + req + ".Body)"
 	const limit = 10240
 	paths := r.Paths(fn)
@@ -218,7 +218,7 @@ func ruleLatencyStart(r *Run) {
 		r.CheckT("H2", fn.Name+":wallet", g["zero:var:req.WalletAddress"] == "nonzero", ev.Pos, path, "a measurement is started only with a wallet address")
 		r.CheckT("H2", fn.Name+":joined", g["joined:currentParticipant"] == "yes", ev.Pos, path, "a measurement is started only for a joined participant")
 		r.CheckT("H2", fn.Name+":own-state", r.P.Canon(fn, ev.Recv) == "recv.currentParticipant.SignedLatency", ev.Pos, path, "the measurement state is the requesting participant's own")
-		want := []string{"recv.PrivateKey", "param:respond", "var:req.RequestId", "var:req.IterationCount", "recv.currentSession.SessionUUID", "recv.clientID", "var:req.WalletAddress"}
+		want := []string{"recv.PrivateKey", "param:#1", "var:req.RequestId", "var:req.IterationCount", "recv.currentSession.SessionUUID", "recv.clientID", "var:req.WalletAddress"}
 		okArgs := len(ev.Call.Args) == len(want)
 		var got []string
 		for k, a := range ev.Call.Args {
@@ -240,7 +240,7 @@ func ruleLatencyStart(r *Run) {
 			for _, ev := range p.Events {
 				if ev.Kind == EvAssign && len(ev.Lhs) == 1 && r.P.Canon(hc, ev.Lhs[0]) == "recv.clientID" {
 					c := r.P.Canon(hc, ev.Rhs[0])
-					okID = strings.Contains(c, "HeaderPosemeshClientID") && strings.Contains(c, "param:conn")
+					okID = strings.Contains(c, "HeaderPosemeshClientID") && strings.Contains(c, "param:#0")
 				}
 			}
 		}
@@ -326,10 +326,10 @@ func ruleEntityActions(r *Run) {
 			_ = pi
 			var leafOK bool
 			for _, op := range r.mapOps(sf, &path) {
-				if op.Kind == "write" && op.Key == "param:ea.Name" && op.Val == "param:ea" && strings.Contains(op.Map, "recv.entityActions[param:ea.EntityId]") {
+				if op.Kind == "write" && op.Key == "param:#0.Name" && op.Val == "param:#0" && strings.Contains(op.Map, "recv.entityActions[param:#0.EntityId]") {
 					leafOK = true
 				}
-				if op.Kind == "write" && op.Key == "param:ea.Name" && op.Val == "param:ea" && strings.HasPrefix(op.Map, "local:entityActions") {
+				if op.Kind == "write" && op.Key == "param:#0.Name" && op.Val == "param:#0" && strings.HasPrefix(op.Map, "local:") {
 					leafOK = true // inner map variable defined on both branches from recv.entityActions[ea.EntityId]
 				}
 				if op.Kind == "delete" {
@@ -350,7 +350,7 @@ func ruleEntityActions(r *Run) {
 				if s.rhs != nil {
 					c = r.P.Canon(sf, s.rhs)
 				}
-				if !(c == "recv.entityActions[param:ea.EntityId]" || strings.HasPrefix(c, "make(")) {
+				if !(c == "recv.entityActions[param:#0.EntityId]" || strings.HasPrefix(c, "make(")) {
 					ok = false
 				}
 			}
@@ -362,8 +362,8 @@ func ruleEntityActions(r *Run) {
 		for _, path := range r.Paths(gf) {
 			ret := r.retCanon(gf, &path)
 			g := r.guardMap(&path)
-			if g["maplookup:recv.entityActions[param:entityID]"] == "hit" {
-				r.CheckT("S-Actions", gf.Name+":read", len(ret) == 2 && ret[0] == "recv.entityActions[param:entityID][param:actionName]", gf.Body.Pos(), &path, "lookup reads (entity id, name) (returns %v)", ret)
+			if g["maplookup:recv.entityActions[param:#0]"] == "hit" {
+				r.CheckT("S-Actions", gf.Name+":read", len(ret) == 2 && ret[0] == "recv.entityActions[param:#0][param:#1]", gf.Body.Pos(), &path, "lookup reads (entity id, name) (returns %v)", ret)
 			}
 		}
 	}
@@ -371,7 +371,7 @@ func ruleEntityActions(r *Run) {
 		r.Analysed(rm, 1)
 		for _, path := range r.Paths(rm) {
 			ops := r.mapOps(rm, &path)
-			r.CheckT("S-Actions", rm.Name+":removes", len(ops) == 1 && ops[0].Kind == "delete" && ops[0].Map == "recv.entityActions" && ops[0].Key == "param:entityID", rm.Body.Pos(), &path, "removing an entity's actions deletes its whole entry")
+			r.CheckT("S-Actions", rm.Name+":removes", len(ops) == 1 && ops[0].Kind == "delete" && ops[0].Map == "recv.entityActions" && ops[0].Key == "param:#0", rm.Body.Pos(), &path, "removing an entity's actions deletes its whole entry")
 		}
 	}
 	if ls := r.modelFunc("modules/vikja.(*State).EntityActions"); ls != nil {
@@ -384,7 +384,7 @@ func ruleEntityActions(r *Run) {
 			okW := false
 			for _, op := range r.mapOps(sf, &path) {
 				if op.Kind == "write" && op.Depth == 1 && op.Map == "recv.assetInstances" {
-					if op.Key == "param:ai.EntityId" && op.Val == "param:ai" {
+					if op.Key == "param:#0.EntityId" && op.Val == "param:#0" {
 						okW = true
 					} else if !strings.HasPrefix(op.Val, "make(") {
 						okW = false
@@ -398,7 +398,7 @@ func ruleEntityActions(r *Run) {
 		r.Analysed(rm, 1)
 		for _, path := range r.Paths(rm) {
 			ops := r.mapOps(rm, &path)
-			r.CheckT("S-Assets", rm.Name+":removes", len(ops) == 1 && ops[0].Kind == "delete" && ops[0].Map == "recv.assetInstances" && ops[0].Key == "param:entityID", rm.Body.Pos(), &path, "removing an entity's asset deletes its entry")
+			r.CheckT("S-Assets", rm.Name+":removes", len(ops) == 1 && ops[0].Kind == "delete" && ops[0].Map == "recv.assetInstances" && ops[0].Key == "param:#0", rm.Body.Pos(), &path, "removing an entity's asset deletes its entry")
 		}
 	}
 	if ls := r.modelFunc("modules/odal.(*State).AssetInstances"); ls != nil {
@@ -482,14 +482,14 @@ func ruleSnapshot(r *Run) {
 				}
 				return r.P.Canon(ml.Fn, x)
 			}
-			sess := "local:session"
+			sess := r.joinSessionCanon(fn)
 			okP := get("Participants") == "call:models.ParticipantsToProtobuf("+sess+".call:Session.GetParticipants())"
 			okE := get("Entities") == "call:models.EntitiesToProtobuf("+sess+".call:Session.Entities())"
 			okC := get("EntityComponents") == sess+".entityComponents.call:EntityComponentStore.ListAll()"
-			r.CheckT("C7", fn.Name+":snapshot-content", okP && okE && okC && r.isJoinLocalSessionByName(fn, "session"), ev.Pos, path,
+			r.CheckT("C7", fn.Name+":snapshot-content", okP && okE && okC && sess != "", ev.Pos, path,
 				"the snapshot lists all participants, all entities and all components of the session being joined (participants=%q entities=%q components=%q)", get("Participants"), get("Entities"), get("EntityComponents"))
 			// answered first, to the joiner
-			r.CheckT("C7", fn.Name+":to-joiner", r.P.Canon(ev.Fn, ev.Recv) == "param:respond", ev.Pos, path, "the snapshot goes to the joining connection")
+			r.CheckT("C7", fn.Name+":to-joiner", r.P.Canon(ev.Fn, ev.Recv) == "param:#2", ev.Pos, path, "the snapshot goes to the joining connection")
 		}
 	}
 	r.Floor("C7", "snapshot emissions on join paths", n, 1)
@@ -511,7 +511,7 @@ func ruleSnapshot(r *Run) {
 			continue
 		}
 		r.Analysed(sf, 1)
-		param := sf.Obj.Type().(*types.Signature).Params().At(0).Name()
+		param := "#0"
 		iter := 0
 		for _, path := range r.Paths(sf) {
 			r.loopsComplete("C7", sf, &path)
@@ -606,7 +606,7 @@ func ruleSnapshot(r *Run) {
 			}
 			nSet++
 			g := r.guardMap(&Path{Fn: h.Fn, Events: path.Events[:i]})
-			want := "var:" + h.ReqVar.Name() + ".Pose"
+			want := "var:req.Pose"
 			has := g["nil:"+want] == "nonnil" || g["zero:"+want] == "nonzero"
 			r.CheckT("C11-pose", h.Fn.Name+":applied-only-with-pose", has, path.Events[i].Pos, &path,
 				"a pose is stored (and relayed) on a path that never established that the update carries one: an update without pose overwrites the entity's pose with zeros instead of being dropped")
@@ -635,7 +635,7 @@ func ruleSnapshot(r *Run) {
 				if r.isSendCall(ev) {
 					sent++
 					ml := r.sendMsg(ev)
-					ok := ml != nil && r.P.Canon(jf, litField(ml.Lit, want[0])) == want[1] && r.P.Canon(ev.Fn, ev.Recv) == "param:respond"
+					ok := ml != nil && r.P.Canon(jf, litField(ml.Lit, want[0])) == want[1] && r.P.Canon(ev.Fn, ev.Recv) == "param:#1"
 					r.CheckT("C7", jf.Name+":content", ok, ev.Pos, &path, "the module hands the newcomer its complete current state")
 				}
 			}
@@ -688,7 +688,8 @@ func ruleModuleInit(r *Run) {
 		names[mi.Name] = mi.Short
 		fn := mi.Init
 		sig := fn.Obj.Type().(*types.Signature)
-		ps, pp := "param:"+sig.Params().At(0).Name(), "param:"+sig.Params().At(1).Name()
+		ps, pp := "param:#0", "param:#1"
+		_ = sig
 		paths := r.Paths(fn)
 		r.Analysed(fn, len(paths))
 		created, reused := 0, 0
@@ -711,7 +712,7 @@ func ruleModuleInit(r *Run) {
 						if len(ev.Rhs) == len(ev.Lhs) && strings.HasPrefix(c, "recv.") && !strings.Contains(strings.TrimPrefix(c, "recv."), ".") {
 							assigned[c] = r.P.Canon(fn, ev.Rhs[k])
 						}
-						if strings.HasPrefix(c, "recv.state.") || strings.HasPrefix(c, "local:state.") {
+						if strings.HasPrefix(c, "recv.state.") || (strings.HasPrefix(c, "local:") && strings.Contains(c, ".") && r.isModuleStateLocal(fn, l)) {
 							stateWrites++
 							if lookup == "hit" {
 								r.CheckT("J4", fn.Name+":retention["+c+"]", false, ev.Pos, path,
@@ -723,7 +724,7 @@ func ruleModuleInit(r *Run) {
 			}
 			r.CheckT("J3", fn.Name+":rebind", assigned["recv.currentSession"] == ps && assigned["recv.currentParticipant"] == pp, fn.Body.Pos(), path,
 				"Init binds the module to the session and participant it is given (session=%q participant=%q)", assigned["recv.currentSession"], assigned["recv.currentParticipant"])
-			okState := strings.HasPrefix(assigned["recv.state"], "local:state.(") || strings.Contains(assigned["recv.state"], "call:Session.ModuleState(")
+			okState := strings.HasPrefix(assigned["recv.state"], "local:") && strings.Contains(assigned["recv.state"], ".(") || strings.Contains(assigned["recv.state"], "call:Session.ModuleState(")
 			r.CheckT("J3", fn.Name+":state-from-session", okState, fn.Body.Pos(), path, "the module's state is the one registered in the session under the module's name (%q)", assigned["recv.state"])
 			iGet := idxOfCall(path, getState, 0)
 			if iGet >= 0 {
@@ -745,4 +746,80 @@ func ruleModuleInit(r *Run) {
 		r.Check("J3", fn.Name+":cases", created >= 1 && reused >= 1, fn.Body.Pos(), "Init has a creating and a reusing path")
 	}
 	r.Floor("J3", "modules", len(m.Modules), 3)
+}
+
+// joinSessionCanon: canonical name of the join handler's local that holds the session being joined
+// (every definition is GetByGlobalID(...) or NewSession(...)); "" if there is no such local.
+func (r *Run) joinSessionCanon(fn *Func) string {
+	for obj, sites := range fn.Defs().sites {
+		if len(sites) == 0 {
+			continue
+		}
+		ok := true
+		for _, s := range sites {
+			if s.kind != "assign" || s.rhs == nil {
+				ok = false
+				break
+			}
+			f, _ := r.calleeOfExpr(fn, s.rhs)
+			if f == nil {
+				ok = false
+				break
+			}
+			switch funcName(f) {
+			case "models.(*SessionStore).GetByGlobalID":
+				if !s.multi || s.idx != 0 {
+					ok = false
+				}
+			case "models.NewSession":
+			default:
+				ok = false
+			}
+		}
+		if ok {
+			if len(sites) == 1 {
+				// single definition: canon inlines it; rebuild that form
+				id := &ast.Ident{Name: obj.Name()}
+				_ = id
+			}
+			return "local:" + obj.Name()
+		}
+	}
+	return ""
+}
+
+// isModuleStateLocal: the assignment target is rooted at a local that holds the module state
+// fetched from (or created for) the session.
+func (r *Run) isModuleStateLocal(fn *Func, lhs ast.Expr) bool {
+	x := lhs
+	for {
+		switch v := ast.Unparen(x).(type) {
+		case *ast.SelectorExpr:
+			x = v.X
+			continue
+		case *ast.IndexExpr:
+			x = v.X
+			continue
+		case *ast.StarExpr:
+			x = v.X
+			continue
+		case *ast.TypeAssertExpr:
+			x = v.X
+			continue
+		}
+		break
+	}
+	id, ok := ast.Unparen(x).(*ast.Ident)
+	if !ok {
+		return false
+	}
+	obj := fn.Info().Uses[id]
+	for _, s := range fn.Defs().sites[obj] {
+		if s.rhs != nil {
+			if f, _ := r.calleeOfExpr(fn, s.rhs); f != nil && funcName(f) == "models.(*Session).ModuleState" {
+				return true
+			}
+		}
+	}
+	return false
 }
